@@ -13,7 +13,9 @@ RULE = ("MACHO: thin images built by the harness (32/64-bit, both byte orders, _
         "(PatchSignature + Dump/Load/Apply), sign (machos.Sign with real keys + apply + machos.Verify, also on relic's own output; incl. "
         "images whose sizeofcmds exceeds the commands by 1..24 bytes, without (refused, fix F-MACHO-4) and with an LC_CODE_SIGNATURE "
         "command (accepted)), signguard (machos.Sign + Verify with an entitlement that puts the size estimate at 9999992 / 9999993 / "
-        "10000000 / 10000001 / 10000008: the limit of fix F-MACHO-3, SHA-1/256/384, unsigned and with a too-small old region), vfy, "
+        "10000000 / 10000001 / 10000008: the limit of fix F-MACHO-3, SHA-1/256/384, unsigned and with a too-small old region; plus sign ops "
+        "on images whose LC_CODE_SIGNATURE names a region of 10000000 / 10000001 / 10000008 bytes, the region itself cut off: the reuse "
+        "branch of the test, fix F-MACHO-3b), vfy, "
         "mutate (C02: one-byte mutants of really signed images through machos.Verify), realsign (signer module, two rounds). "
         "Non-trivial = distinct op on which the model gets past the magic / length checks.")
 TRUSTED = ["Relic.Model.{CodeDir,MachO} are hand-written from lib/fruit/csblob/{pagehash,codedir,superblob,sign,verify,csblob}.go and "
@@ -23,8 +25,10 @@ TRUSTED = ["Relic.Model.{CodeDir,MachO} are hand-written from lib/fruit/csblob/{
 ASSUMPTIONS = ["Mach-O theorems assume a regular thin layout (a __LINKEDIT command inside the load commands, LC_CODE_SIGNATURE behind it or "
                "room for one, __LINKEDIT ending at the end of the file); irregular inputs are exercised by the correspondence only",
                "the size test of machos.Sign (fix F-MACHO-3) is tied at its boundary through the entitlement length (signguard ops); the "
-               "original witness (an image with more than 786 MB of code) and the reuse of an existing region above 10^7 bytes "
-               "(Regular.oldSmall, macho_reused_oversize_region_refused) are replayed by hand with harness/cmd/machobig, not in the tiers",
+               "original witness (an image with more than 786 MB of code) is replayed by hand with harness/cmd/machobig, not in the tiers; the "
+               "reuse branch of the test (fix F-MACHO-3b: an existing region above 10^7 bytes) is tied in the tiers only on images whose "
+               "region is cut off the op (sign ops with LC_CODE_SIGNATURE length 10000000 / 10000001 / 10000008: err oldsig / err signtoolarge; "
+               "a complete 10 MB image exceeds the tier's size limits), the complete image by harness/cmd/machobig reuse",
                "CMS signing/verification of the code directory and requirement compilation are opaque parameters",
                "fat binaries are out of scope"]
 
